@@ -18,6 +18,7 @@ RULE = (
     ' Images are also opened by a second reader on the same handle after the first reader was dropped.'
     ' One image in eight stores its blocks at pointers 0x7FFFFFF0 .. 0xFFFFFFFD (unsigned block pointers).'
 )
+RULE += ' Round 10: transient OSError then retry; content flavours; two readers over one handle; anonymous temp-file handles.'
 ASSUMPTIONS = [
     "block sizes are powers of two >= 512 (the statement says 'every block size'; VDICore only requires a power of two)",
     "writer is independent of the repo's c_vdi layout (struct.pack from VDICore.h)",
